@@ -541,7 +541,8 @@ def dangling_fields(P, R, rule='C14.OWN.2'):
                     if fld(lhs):
                         k = sx(lhs)
                         al2 = set(al) - {k}
-                        if is_var(rhs, v):
+                        # field = v, or the chained form field = (v = ...)
+                        if is_var(rhs, v) or (rhs.get('k') == 'bin' and rhs.get('op') == '=' and is_var(rhs.get('l'), v)):
                             al2.add(k)
                         return (frozenset(al2), frozenset(set(dang) - {k}))
                 if ev['k'] == 'call' and ev.get('callee') in ('xfree', 'free', 'fclose', 'closedir', 'close') and ev['args'] and is_var(ev['args'][0], v):
@@ -732,6 +733,11 @@ def run(P, R, tier):
     dangling_fields(P, R)
     freed_fields(P, R)
     ctype_subscripts(P, R)
+    # a node moved into the live tree must not keep a pointer into the scratch tree that is about to be freed
+    from . import c15, c16
+    c15.merge_details(P, Remap(R, {'C15.MPT.6': 'C14.OWN.4'}, keys=('parent-link',)))
+    # every token loop of the parser leaves on end of input (a truncated file is reported, the parser does not spin)
+    c16.lookahead(P, Remap(R, {'C16.LOOK.1': 'C14.MPT.4'}))
     error_branch_reads(P, R)
     decoder_advance(P, R)
     context_init(P, R)
